@@ -41,17 +41,68 @@ Proof.
   intros Hhex Hcol Hnul He. rewrite !tie_root_pair_hash in He. apply Hhex, Hcol in He.
   apply split_at_nul in He; [exact He|apply Hnul|apply Hnul].
 Qed.
+
+(** ** where the record of a pair lives (archive.rs `archive_path`): `$HOME/.copia/archive/<key>.json`, `/tmp` standing in
+    for an unset HOME; for one HOME, two keys that are not absolute paths name the same file only when they are equal -
+    so, with [pair_key_identifies_the_ordered_pair], the record file identifies the ordered pair of canonical roots *)
+Definition arch_dir (home_var : option (list Z)) : list Z :=
+  pjoin (pjoin (match home_var with Some h => h | None => [47; 116; 109; 112] end) [46; 99; 111; 112; 105; 97]) [97; 114; 99; 104; 105; 118; 101].
+
+Lemma tie_archive_path (home_var : option (list Z)) (key : list Z) :
+  g_archive_path home_var key = pjoin (arch_dir home_var) (key ++ [46; 106; 115; 111; 110]).
+Proof. unfold g_archive_path, arch_dir. cbv zeta. destruct home_var; reflexivity. Qed.
+
+Definition relative (x : list Z) : Prop := match x with 47 :: _ => False | _ => True end.
+
+Lemma pjoin_relative (base x : list Z) : relative x -> exists pre, forall y, relative y -> y <> [] -> x <> [] -> pjoin base x = pre ++ x /\ pjoin base y = pre ++ y.
+Proof.
+  intros Hx. unfold pjoin. destruct (rev base) as [|c r] eqn:Er.
+  - exists []. intros y Hy Hny Hnx. destruct x as [|cx x]; [congruence|]. destruct y as [|cy y]; [congruence|].
+    cbn [relative] in Hx, Hy. split.
+    + destruct (Z.eq_dec cx 47) as [->|Hc]; [contradiction|]. destruct cx as [|px|px]; try reflexivity. repeat (destruct px as [px|px|]; try reflexivity). all: try congruence.
+    + destruct (Z.eq_dec cy 47) as [->|Hc]; [contradiction|]. destruct cy as [|py|py]; try reflexivity. repeat (destruct py as [py|py|]; try reflexivity). all: try congruence.
+  - assert (Hpre : exists pre, forall z, (match c :: r with [] => z | 47 :: _ => base ++ z | _ => base ++ [47] ++ z end) = pre ++ z).
+    { destruct (Z.eq_dec c 47) as [->|Hc]; [exists base; reflexivity|]. exists (base ++ [47]). intros z. rewrite <- app_assoc.
+      destruct c as [|pc|pc]; try reflexivity. repeat (destruct pc as [pc|pc|]; try reflexivity). all: try congruence. }
+    destruct Hpre as [pre Hpre]. exists pre. intros y Hy Hny Hnx. destruct x as [|cx x]; [congruence|]. destruct y as [|cy y]; [congruence|].
+    cbn [relative] in Hx, Hy. split.
+    + rewrite <- Hpre. destruct (Z.eq_dec cx 47) as [->|Hc]; [contradiction|]. destruct cx as [|px|px]; try reflexivity. repeat (destruct px as [px|px|]; try reflexivity). all: try congruence.
+    + rewrite <- Hpre. destruct (Z.eq_dec cy 47) as [->|Hc]; [contradiction|]. destruct cy as [|py|py]; try reflexivity. repeat (destruct py as [py|py|]; try reflexivity). all: try congruence.
+Qed.
+
+Lemma relative_app (x s : list Z) : relative x -> x <> [] -> relative (x ++ s).
+Proof. destruct x as [|c x]; [congruence|]. intros H _. exact H. Qed.
+
+Theorem archive_path_identifies_the_key (home_var : option (list Z)) (k k' : list Z) :
+  relative k -> relative k' -> k <> [] -> k' <> [] ->
+  g_archive_path home_var k = g_archive_path home_var k' -> k = k'.
+Proof.
+  intros Hk Hk' Hn Hn' He. rewrite !tie_archive_path in He.
+  destruct (pjoin_relative (arch_dir home_var) (k ++ [46; 106; 115; 111; 110]) (relative_app _ _ Hk Hn)) as [pre Hpre].
+  destruct (Hpre (k' ++ [46; 106; 115; 111; 110])) as [E1 E2].
+  - apply relative_app; assumption.
+  - destruct k'; discriminate.
+  - destruct k; discriminate.
+  - rewrite E1, E2 in He. apply app_inv_head in He. apply app_inv_tail in He. exact He.
+Qed.
 End Tie.
 
 Definition pair_key_is_translation : Prop :=
   forall (D : Type) (Hh : list Z -> D) (hex_of : D -> list Z) (canon : list Z -> list Z),
     (forall a b, g_root_pair_hash D Hh hex_of canon a b = hex_of (Hh (canon a ++ [0] ++ canon b))) /\
     ((forall d d', hex_of d = hex_of d' -> d = d') -> (forall u v, Hh u = Hh v -> u = v) -> (forall p, ~ In 0 (canon p)) ->
-     forall a b a' b', g_root_pair_hash D Hh hex_of canon a b = g_root_pair_hash D Hh hex_of canon a' b' -> canon a = canon a' /\ canon b = canon b').
+     forall a b a' b', g_root_pair_hash D Hh hex_of canon a b = g_root_pair_hash D Hh hex_of canon a' b' -> canon a = canon a' /\ canon b = canon b') /\
+    (forall home_var key, g_archive_path home_var key = pjoin (arch_dir home_var) (key ++ [46; 106; 115; 111; 110])) /\
+    (forall home_var k k', relative k -> relative k' -> k <> [] -> k' <> [] -> g_archive_path home_var k = g_archive_path home_var k' -> k = k').
 Lemma pair_key_is_translation_holds : pair_key_is_translation.
-Proof. intros D Hh hex_of canon. split; [apply tie_root_pair_hash|]. intros H1 H2 H3 a b a' b'. apply pair_key_identifies_the_ordered_pair; assumption. Qed.
+Proof. intros D Hh hex_of canon. split; [apply tie_root_pair_hash|]. split; [intros H1 H2 H3 a b a' b'; apply pair_key_identifies_the_ordered_pair; assumption|]. split; [apply tie_archive_path|apply archive_path_identifies_the_key]. Qed.
 
 Example pair_key_nonvacuous :
   g_root_pair_hash (list Z) (fun x => x) (fun x => x) (fun x => x) [47; 97] [47; 98] = [47; 97; 0; 47; 98] /\
   g_root_pair_hash (list Z) (fun x => x) (fun x => x) (fun x => x) [47; 98] [47; 97] <> [47; 97; 0; 47; 98].
 Proof. split; [reflexivity|discriminate]. Qed.
+
+Example archive_path_nonvacuous :
+  g_archive_path (Some [47; 104]) [97; 98] = [47; 104; 47; 46; 99; 111; 112; 105; 97; 47; 97; 114; 99; 104; 105; 118; 101; 47; 97; 98; 46; 106; 115; 111; 110] /\
+  g_archive_path None [97] = [47; 116; 109; 112; 47; 46; 99; 111; 112; 105; 97; 47; 97; 114; 99; 104; 105; 118; 101; 47; 97; 46; 106; 115; 111; 110].
+Proof. split; reflexivity. Qed.
